@@ -568,7 +568,8 @@ fn treap_verdict(outs: &[ThreadOut], solo: &[ThreadOut], shapes: bool) -> Option
         if o.render != o.render_oracle {
             return Some(format!("fail:treap-thread{}-rendering-(TreePrinter/Debug)-of-its-own-treaps-differs-from-the-documented-layout", i));
         }
-        if o.render != solo[i].render {
+        // (a rendering shows the shape: it is comparable with the run alone only when both runs drew the same priorities)
+        if shapes && o.render != solo[i].render {
             return Some(format!("fail:treap-thread{}-rendering-(TreePrinter/Debug)-of-its-own-treaps-differs-from-run-alone", i));
         }
         if shapes && o.shape != solo[i].shape {
